@@ -289,3 +289,127 @@ def G3_one_shot_iterators(repo, clause, scope=ALL_LIB):
                   "%d functions in scope, %d locals bound to one-shot iterators (generator expressions, map/filter/zip objects)" % (len(fns), n_gen),
                   construct="one-shot iterator inventory", slot="inventory"))
     return obs
+
+
+def G4_numpy_container_pitfalls(repo, clause, scope=ALL_LIB):
+    """Three container pitfalls that change results only for particular inputs:
+    (a) np.array(rows, ndmin=2) of a possibly EMPTY list has shape (1, 0): one phantom row instead of none;
+    (b) itertools.groupby only merges CONSECUTIVE equal keys: the input must be sorted by the same key;
+    (c) isinstance(x, int) is False for numpy integers: a count parameter validated that way rejects the arrays other functions of
+        the package pass to it."""
+    obs = []
+    fns = _scope_fns(repo, scope)
+    n_a = n_b = n_c = 0
+    for fn in fns:
+        for c in [x for x in fn.own_nodes() if isinstance(x, ast.Call)]:
+            nm = call_name(c)
+            if nm in ("array", "asarray", "atleast_2d"):
+                nd = next((k.value for k in c.keywords if k.arg == "ndmin"), None)
+                if (nd is not None and isinstance(nd, ast.Constant) and nd.value == 2) or nm == "atleast_2d":
+                    n_a += 1
+                    src = expand(fn, c.args[0]) if c.args else None
+                    maybe_empty = isinstance(src, (ast.ListComp, ast.List)) or (isinstance(src, ast.Name))
+                    guarded = False
+                    from .common import norm_guards
+                    for t, pol, k in norm_guards(fn, c):
+                        if "len(" in ast.unparse(t) or ".size" in ast.unparse(t):
+                            guarded = True
+                    bad = maybe_empty and not guarded
+                    obs.append(Ob("G4", clause, fn, c, not bad,
+                                  "`%s` in %s: %s" % (ast.unparse(c)[:60], fn.qualname,
+                                                      "an EMPTY list of rows becomes an array of shape (1, 0) - one phantom row (term) instead of none - and everything sized by its length is off by one"
+                                                      if bad else "guarded by a size test"),
+                                  slot="ndmin2:%s" % fn.qualname, positive=bad))
+            if nm == "groupby" and c.args:
+                n_b += 1
+                src = expand(fn, c.args[0])
+                key = next((k.value for k in c.keywords if k.arg == "key"), c.args[1] if len(c.args) > 1 else None)
+                sorted_same = isinstance(src, ast.Call) and call_name(src) == "sorted" and (
+                    key is None or ast.unparse(next((k.value for k in src.keywords if k.arg == "key"), ast.Constant(None))) == ast.unparse(key))
+                obs.append(Ob("G4", clause, fn, c, sorted_same,
+                              "`%s` in %s: %s" % (ast.unparse(c)[:60], fn.qualname,
+                                                  "input is sorted by the same key" if sorted_same else
+                                                  "itertools.groupby merges only CONSECUTIVE items with equal keys and the input is not sorted by that key: equal keys that are not adjacent form several groups, and a dict built from them keeps only the last run"),
+                              slot="groupby:%s" % fn.qualname, positive=not sorted_same))
+            if nm == "isinstance" and len(c.args) == 2 and isinstance(c.args[1], ast.Name) and c.args[1].id == "int":
+                # which parameter does the tested value come from?
+                x = c.args[0]
+                src_param = None
+                if isinstance(x, ast.Name):
+                    if x.id in fn.params:
+                        src_param = x.id
+                    else:
+                        for comp in [n for n in fn.own_nodes() if isinstance(n, (ast.comprehension, ast.For))]:
+                            tgt = comp.target
+                            it = comp.iter
+                            if isinstance(tgt, ast.Name) and tgt.id == x.id and isinstance(it, ast.Name) and it.id in fn.params:
+                                src_param = it.id
+                if src_param is None:
+                    continue
+                n_c += 1
+                numpy_callers = []
+                pos = [p_ for p_ in fn.params if p_ not in ("self", "cls")]
+                for f2 in repo.all_fns():
+                    for call in [y for y in f2.own_nodes() if isinstance(y, ast.Call) and call_name(y) == fn.name]:
+                        args = list(call.args)
+                        a = None
+                        if src_param in pos and pos.index(src_param) < len(args):
+                            a = args[pos.index(src_param)]
+                        for k in call.keywords:
+                            if k.arg == src_param:
+                                a = k.value
+                        if a is None:
+                            continue
+                        e = expand(f2, a)
+                        if any(isinstance(y, ast.Call) and call_name(y) in ("array", "asarray", "ceil", "floor", "arange", "astype", "rint") for y in ast.walk(e)):
+                            numpy_callers.append((f2, call))
+                obs.append(Ob("G4", clause, fn, c, not numpy_callers,
+                              "`%s` in %s: %s" % (ast.unparse(c), fn.qualname,
+                                                  "no caller in the package passes numpy values" if not numpy_callers else
+                                                  "isinstance(numpy integer, int) is False, but %s passes `%s` (a numpy array) for `%s`: the documented call path is rejected" % (
+                                                      numpy_callers[0][0].qualname, ast.unparse(numpy_callers[0][1])[:50], src_param)),
+                              slot="isinstance-int:%s:%s" % (fn.qualname, src_param), positive=bool(numpy_callers)))
+    obs.append(Ob("G4", clause, fns[0], fns[0].node, True, "%d functions in scope: %d ndmin=2 conversions, %d groupby calls, %d isinstance(., int) tests on parameters inspected" % (len(fns), n_a, n_b, n_c),
+                  construct="container pitfall inventory", slot="inventory"))
+    return obs
+
+
+def G6_stale_loop_cache(repo, clause, scope=ALL_LIB):
+    """A local that is (re)computed inside an inner loop from the OUTER loop's variable, but only under a condition, keeps the value
+    of an earlier outer iteration on the paths that skip the assignment: every path from the head of the outer loop to a use must
+    pass through an assignment."""
+    obs = []
+    fns = _scope_fns(repo, scope)
+    n = 0
+    for fn in fns:
+        fors = [x for x in fn.own_nodes() if isinstance(x, ast.For)]
+        for outer in fors:
+            ovars = {y.id for y in ast.walk(outer.target) if isinstance(y, ast.Name)}
+            inners = [x for x in ast.walk(outer) if isinstance(x, ast.For) and x is not outer]
+            for inner in inners:
+                for d in [x for x in ast.walk(inner) if isinstance(x, ast.Assign) and len(x.targets) == 1 and isinstance(x.targets[0], ast.Name)]:
+                    v = d.targets[0].id
+                    if not any(isinstance(y, ast.Name) and y.id in ovars for y in ast.walk(d.value)):
+                        continue
+                    if not any(isinstance(a, ast.If) for a in fn.ancestors(d) if a is not inner and inner in list(fn.ancestors(a)) or a is inner and False):
+                        # unconditional inside the inner loop body
+                        cond = [a for a in fn.ancestors(d) if isinstance(a, ast.If) and (inner in list(fn.ancestors(a)))]
+                        if not cond:
+                            continue
+                    uses = [u for u in ast.walk(inner) if isinstance(u, ast.Name) and u.id == v and isinstance(u.ctx, ast.Load) and fn.stmt_of(u) is not d]
+                    if not uses:
+                        continue
+                    defs = [x for x in ast.walk(outer) if isinstance(x, ast.Assign) and any(isinstance(t, ast.Name) and t.id == v for t in x.targets)]
+                    for u in uses[:1]:
+                        n += 1
+                        st = fn.stmt_of(u)
+                        fresh = fn.cfg.must_pass(outer, defs, st)
+                        obs.append(Ob("G6", clause, fn, st, fresh,
+                                      "`%s` in %s is computed from the outer loop variable (%s) %s" % (
+                                          v, fn.qualname, ", ".join(sorted(ovars)),
+                                          "on every path of an outer iteration before it is used" if fresh else
+                                          "only under a condition (`%s`): on the other paths the value of an EARLIER outer iteration is used - the result then depends on the order of the items" % ast.unparse(d)[:50]),
+                                      slot="stale-cache:%s:%s" % (fn.qualname, v), positive=not fresh))
+    obs.append(Ob("G6", clause, fns[0], fns[0].node, True, "%d functions in scope, %d inner-loop locals computed from an outer loop variable under a condition" % (len(fns), n),
+                  construct="stale loop cache inventory", slot="inventory"))
+    return obs
